@@ -674,6 +674,8 @@ pub struct GenCfg {
     pub jumps: bool,
     pub exits: bool,
     pub probes: bool,
+    /// no while/until loops (their `lim` counters carry state from one run of the program to the next)
+    pub no_while: bool,
 }
 
 impl Default for GenCfg {
@@ -690,6 +692,7 @@ impl Default for GenCfg {
             jumps: true,
             exits: true,
             probes: true,
+            no_while: false,
         }
     }
 }
@@ -815,6 +818,9 @@ pub fn stmt_strategy(cfg: &GenCfg, first_callable: u8) -> BoxedStrategy<Stmt> {
             (2, list.clone().prop_map(Stmt::Brace).boxed()),
             (2, list.clone().prop_map(Stmt::Subshell).boxed()),
         ];
+        if cfg2.no_while {
+            let _ = opts.remove(3); // the While entry
+        }
         if cfg2.pipes {
             opts.push((3, proptest::collection::vec(inner.clone(), 2..=3).prop_map(Stmt::Pipe).boxed()));
         }
